@@ -126,6 +126,14 @@ func verify(c *Ctx, fn *ssa.Function, fc *FuncContract, commutes bool) {
 			fr.curProps = nil
 		}
 	}
+	if fc.Functional != "" {
+		if probs := c.purityProblems(fn, map[*ssa.Function]bool{}, 0); len(probs) > 0 {
+			c.note("%s: purity scan failed: %s", fr.fname, strings.Join(probs, "; "))
+			fr.oblige(st, "functional.purity_scan", "false", fn.Pos())
+		} else {
+			fr.oblige(st, "functional.purity_scan", "true", fn.Pos())
+		}
+	}
 	// structural vacuity: every annotated loop must exist
 	for ord := range fc.LoopInv {
 		if ord > fr.nLoops {
